@@ -420,13 +420,20 @@ static int writer_finish_section(struct reftable_writer *w)
 			strbuf_release(&idx[i].last_key);
 		}
 		reftable_free(idx);
+
+		/* The last block of this level must be part of the next level
+		   (and must not be left over for the next section). */
+		err = writer_flush_block(w);
+		if (err < 0)
+			return err;
+		if (w->index_len >= idx_len) {
+			/* Keys so long that every index block holds a single
+			   entry: another level would not be smaller. */
+			break;
+		}
 	}
 
 	writer_clear_index(w);
-
-	err = writer_flush_block(w);
-	if (err < 0)
-		return err;
 
 	bstats = writer_reftable_block_stats(w, typ);
 	bstats->index_blocks = w->stats.idx_stats.blocks - before_blocks;
